@@ -1811,7 +1811,7 @@ int ABT_thread_migrate(ABT_thread thread)
         ABT_bool is_valid = ABT_TRUE;
         size_t p;
         for (p = 0; p < p_sched->num_pools; p++) {
-            if (ABTI_pool_get_ptr(p_sched->pools[p]) != p_thread->p_pool) {
+            if (ABTI_pool_get_ptr(p_sched->pools[p]) == p_thread->p_pool) {
                 is_valid = ABT_FALSE;
                 break;
             }
